@@ -223,28 +223,32 @@ def run(ctx):
     env.init()
     q = ctx.quick
     # ---- E1
-    tlc.check(ctx, "PerFileGraphMC", cfg_text=cfg(["f"], 3 if q else 4, 1, False), label="MC 1 file + dir, %d revisions" % (3 if q else 4),
-              workers=16, timeout=3000)
     if not q:
+        tlc.check(ctx, "PerFileGraphMC", cfg_text=cfg(["f"], 4, 1, False), label="MC 1 file + dir, 4 revisions", workers=16, timeout=3000)
         tlc.check(ctx, "PerFileGraphMC", cfg_text=cfg(["f", "g"], 3, 1, False), label="MC 2 files + dir, 3 revisions", workers=16, timeout=3000)
+        tlc.check(ctx, "PerFileGraphMC", cfg_text=cfg(["f"], 4, 1, True), label="MC 1 file + dir, 4 revisions, remove / re-add", workers=16, timeout=3000)
     wit = [("WitnessTwoHeads", 4), ("WitnessTookOther", 4)] + ([] if q else [("WitnessRevertAfterMerge", 4), ("WitnessIdenticalParallel", 4), ("WitnessCrissCross", 5)])
     for w, mr in wit:
         tlc.check(ctx, "PerFileGraphMC", cfg_text=cfg(["f"], mr, 1, False, (w,)), expect_violation=w, label="witness " + w, workers=8, timeout=3000)
     # ---- E2: behaviours
     behs = []
-    nodes, edges, inits, res = tlc.graph(ctx, "PerFileGraphMC", cfg_text=cfg(["f"], 3, 1, False, ()), workers=4, label="graph 1 file, 3 revisions")
+    # (the graph run is also the exhaustive check of the invariants for this configuration)
+    nodes, edges, inits, res = tlc.graph(ctx, "PerFileGraphMC", cfg_text=cfg(["f"], 3, 1, False), workers=8, label="MC + graph 1 file + dir, 3 revisions")
     from vf.tlaval import parse_state
     paths = list(tlc.transition_cover(nodes, edges, inits, rng=ctx.rng, max_len=16))
     if q:
-        paths = ctx.rng.sample(paths, min(len(paths), 60))
+        paths = ctx.rng.sample(paths, min(len(paths), 50))
     for p in paths:
         behs.append(beh_to_py([(act, parse_state(nodes[nid])) for act, nid in p]))
     ctx.cov["graph"] = {"nodes": len(nodes), "edges": len(edges), "cover_paths": len(paths)}
-    sims, res = tlc.simulate(ctx, "PerFileGraphMC", cfg_text=cfg(["f", "g"], 5 if q else 6, 2, False), num=240 if q else 4000,
+    sims, res = tlc.simulate(ctx, "PerFileGraphMC", cfg_text=cfg(["f", "g"], 5 if q else 6, 2, False), num=160 if q else 3000,
                              depth=16 if q else 20, seed=ctx.seed + 1, label="simulate 2 files", timeout=3000)
     behs += [beh_to_py(b) for b in sims]
+    sims, res = tlc.simulate(ctx, "PerFileGraphMC", cfg_text=cfg(["f"], 5 if q else 6, 2, True), num=40 if q else 1000, depth=20, seed=ctx.seed + 2,
+                             label="simulate 1 file with remove / re-add", timeout=3000)
+    behs += [beh_to_py(b) for b in sims]
     if not q:
-        sims, res = tlc.simulate(ctx, "PerFileGraphMC", cfg_text=cfg(["f"], 6, 1, False), num=1000, depth=18, seed=ctx.seed + 2,
+        sims, res = tlc.simulate(ctx, "PerFileGraphMC", cfg_text=cfg(["f"], 6, 1, False), num=1000, depth=18, seed=ctx.seed + 3,
                                  label="simulate 1 file, 6 revisions", timeout=3000)
         behs += [beh_to_py(b) for b in sims]
     behs = [b for b in behs if len(b[-1][1]["P"]) > 1]
@@ -264,6 +268,6 @@ def run(ctx):
                               law, meta["format"], row["c"]["P"], row["impl"]["fv"], row["impl"]["fp"], row["impl"]["check"]), row)
     ctx.rule("behaviours = transition cover of TLC's state graph (1 file + directory, 3 revisions) + TLC -simulate runs (2 files + "
              "directory, <= 5 revisions quick / 6 thorough, <= 2 edits per commit) over modify / move / chmod / directory rename / commit / "
-             "merge any missing revision with a per-file THIS-or-OTHER choice / pull on two branches; each replayed on 2a and pack-0.92; "
+             "merge any missing revision with a per-file THIS-or-OTHER choice / pull on two branches (plus remove / re-add runs); each replayed on 2a and pack-0.92; "
              "evaluations = revisions read back; non-trivial = history with at least one merge revision")
     ctx.assume("merges are replayed as set_parent_ids + explicit tree contents")
